@@ -103,14 +103,12 @@ impl HeaderSession {
 
 include!("generated/p2p_c27.rs");
 
-// @verif prop=C27 tier=quick shape="trusted header height free in 1..=i64::MAX-1 (valid or not), amount free u64; network serves every requested header" funcs="P2p::get_verified_headers_range"
-#[kani::proof]
-#[kani::unwind(4)]
-fn c27_verified_range_any_amount() {
+fn verified_range(small: bool) {
     let height: u64 = kani::any();
     kani::assume(height >= 1 && height < i64::MAX as u64);
     let from = ExtendedHeader { height, valid: kani::any() };
     let amount: u64 = kani::any();
+    kani::assume((amount <= 1024) == small);
     let p2p = P2p { cmd_tx: CmdTx };
     let res = run_ready(p2p.get_verified_headers_range(&from, amount));
     match res {
@@ -125,7 +123,21 @@ fn c27_verified_range_any_amount() {
         }
     }
     assert!(unsafe { SESSIONS } <= 1, "C27: more than one session");
-    kani::cover!(amount == 0 && from.valid, "witness: zero amount");
-    kani::cover!(amount > (1u64 << 63) && from.valid, "witness: huge amount");
-    kani::cover!(amount == 5 && from.valid, "witness: ordinary amount");
+    kani::cover!((amount == 0 || !small) && from.valid, "witness: zero amount / large amount");
+    kani::cover!((amount > (1u64 << 63) || small) && from.valid, "witness: huge amount");
+    kani::cover!((amount == 5 || !small) && from.valid, "witness: ordinary amount");
+}
+
+// @verif prop=C27 tier=quick shape="trusted header height free in 1..=i64::MAX-1 (valid or not), amount free in 0..=1024; network serves every requested header" funcs="P2p::get_verified_headers_range"
+#[kani::proof]
+#[kani::unwind(4)]
+fn c27_verified_range_small_amounts() {
+    verified_range(true);
+}
+
+// @verif prop=C27 tier=quick shape="trusted header height free in 1..=i64::MAX-1 (valid or not), amount free in 1025..=u64::MAX; network serves every requested header" funcs="P2p::get_verified_headers_range"
+#[kani::proof]
+#[kani::unwind(4)]
+fn c27_verified_range_large_amounts() {
+    verified_range(false);
 }
